@@ -9,9 +9,9 @@ import io
 import pkgutil
 
 from lib import hx, unhx
+import grsenv  # first: the Groestl stand-in hash must be in place before pycoin.symbols.* is imported
 
 import pycoin.symbols
-from pycoin.encoding.b58 import b2a_hashed_base58, a2b_hashed_base58
 from pycoin.encoding.hash import hash160
 from pycoin.contrib import bech32m
 
@@ -19,24 +19,33 @@ MANIFEST = {
     "text": "Lean theorems over the model of AddressAPI/ContractAPI/ParseAPI.address and the generated table of all networks under "
             "pycoin/symbols: address round trip for every network and standard kind (C11 round trips as hypotheses + kernel-decided "
             "prefix side conditions over the whole table), accepted strings re-encode to themselves with a payload of the kind's length, "
-            "cross-network acceptance for all ordered pairs, key/BIP49/BIP84 address definitions, faithful classification; model tied to "
+            "cross-network acceptance for all ordered pairs, key/BIP49/BIP84 address definitions, faithful classification; every network "
+            "of the table incl. the Groestlcoin family, whose Base58Check uses another checksum hash (per network and per code path a "
+            "field of the table, found by probing; kernel-decided that address.b2a and parse_b58_hashed agree); model tied to "
             "the code by differential correspondence on every network and by the regenerated table.",
-    "note": "Groestlcoin-family Base58 (grs, tgrs, grsrt) is not modelled and cannot run here: groestlcoin_hash is not installed, their "
-            "Base58 parsers return None for everything and address production raises ImportError; Bech32 on those networks is covered.",
+    "note": "Groestlcoin family (grs, tgrs, grsrt): runs and is modelled with the stand-in of translate/grs_stub.py in place of the absent "
+            "groestlcoin_hash package; the theorems use of the checksum hash only that it yields 32 bytes.",
     "technique": "Lean 4 proof (generic in the codecs, table side conditions by decide +kernel) + differential correspondence model vs implementation",
 }
 RULE = ("ops c08txin (TxIn.public_key_sec/address on p2pkh solutions and near misses)/c08registry/c08netfor (every module name and symbol, unknown names)/c08contract (nulldata, nulldata_push, p2s, p2s_wit over push-size boundaries)/c08override (Contract.override_network across networks, with disassembly)/c08kind/c08addr/c08parse/c08info/c08forinfo/c08keyaddr/c08foraddress/c08keyseq (key-object histories) on all networks; kinds x networks x hashes, "
-        "all ordered network pairs, payload lengths 0..40 per Base58 prefix, every push form of template data, random scripts, "
+        "all ordered network pairs (incl. grs/tgrs/grsrt vs the networks sharing their version bytes, either checksum hash), payload lengths 0..40 per Base58 prefix, every push form of template data, random scripts, "
         "m-of-n with odd count opcodes; distinct = distinct op line; trivial = result None/unknown")
 ASSUMPTIONS = ["Base58Check/Bech32 and the hashes enter the theorems as functions with the C11 round-trip facts as hypotheses",
-               "Groestlcoin-family Base58 excluded (hash library absent)"]
+               "the optional groestlcoin_hash package is replaced (also where a real one is installed) by the stand-in of translate/grs_stub.py "
+               "in harness, translator and model; of the real Groestl hash only 'a function from byte strings to 32 bytes' is assumed"]
 TRUSTED = ["translate/gen_networks.py reads the prefixes where AddressAPI/ParseAPI keep them and probes the *_as_string closures"]
 
 NETS = {}
 for _m in sorted(m.name for m in pkgutil.iter_modules(pycoin.symbols.__path__)):
     NETS[_m] = importlib.import_module("pycoin.symbols." + _m).network
 NAMES = list(NETS)
-GRS = {k for k, n in NETS.items() if n.address.b2a is not b2a_hashed_base58}
+FAMILY = [k for k in NAMES if grsenv.hash_kind(k) == "groestl"]       # grs, grsrt, tgrs: Base58Check under the Groestl hash
+
+
+def b58c(name, payload):
+    """reference Base58Check text of `payload` under the checksum hash the network `name` is documented to use"""
+    return grsenv.b58c_enc(grsenv.hash_kind(name), payload)
+
 STD = ("p2pkh", "p2sh", "p2pkh_wit", "p2sh_wit", "p2tr")
 
 
@@ -228,16 +237,16 @@ def gen_history(ctx, emit, op, entries):
                 out.append(r[1])
         return out
 
-    names = [n for n in NAMES if n not in GRS]
-    pairs = [(a, b) for g in SAME_NAME.values() for a in g for b in g if a != b and a not in GRS and b not in GRS]
+    names = list(NAMES)
+    pairs = [(a, b) for g in SAME_NAME.values() for a in g for b in g if a != b]
     pairs += [tuple(rng.sample(names, 2)) for _ in range(ctx.n(25, 400))]
+    pairs += [(f, o) if rng.random() < 0.5 else (o, f) for f in FAMILY for o in ("btc", "xtn")]   # one object, both checksum hashes
     for a, b in pairs:
         for text in texts_of(a) + texts_of(b):
             for e in entries if len(entries) <= 2 else rng.sample(entries, ctx.n(2, 4)):
                 emit("%s %s %s:%s,%s:%s" % (op, th(text), a, e, b, e))
     for _ in range(ctx.n(60, 1500)):
         g = rng.choice(list(SAME_NAME.values())) if rng.random() < 0.6 else rng.sample(names, 3)
-        g = [n for n in g if n not in GRS] or ["btc"]
         text = rng.choice(texts_of(rng.choice(g)))
         steps = ["%s:%s" % (rng.choice(g), rng.choice(entries)) for _ in range(rng.randint(2, 6))]
         emit("%s %s %s" % (op, th(text), ",".join(steps)))
@@ -278,16 +287,15 @@ def _std_script(net, kind, h):
     return getattr(net.contract, "for_" + kind)(h)
 
 
-def _payload_len_ok(net, text, info):
+def _payload_len_ok(name, net, text, info):
     """the decoded payload of an accepted address has the kind's length"""
     t = info.get("type")
     want = {"p2pkh": 20, "p2sh": 20, "p2pkh_wit": 20, "p2sh_wit": 32, "p2tr": 32}.get(t)
     if want is None:
         return False
     if t in ("p2pkh", "p2sh"):
-        try:
-            data = a2b_hashed_base58(text)
-        except Exception:  # noqa: BLE001
+        data = grsenv.b58c_dec(grsenv.hash_kind(name), text)
+        if data is None:
             return False
         pfx = net.parse._address_prefix if t == "p2pkh" else net.parse._pay_to_script_prefix
         return len(data) - len(pfx) == want
@@ -372,6 +380,10 @@ def _oracle(op: str, out: str):
         if len(h) != (32 if a[2] in ("p2sh_wit", "p2tr") else 20):
             return None
         want = _std_script(net, a[2], h)
+        if a[2] in ("p2pkh", "p2sh"):
+            pfx = net.address._address_prefix if a[2] == "p2pkh" else net.address._pay_to_script_prefix
+            if grsenv.b58c_dec(grsenv.hash_kind(a[1]), text) != pfx + h:
+                return "for_%s is not Base58Check(prefix + hash) under the network's checksum hash" % a[2]
         c = _quiet(net.parse.address, text)
         if c[0] == "err" or c[1] is None:
             return "address produced by for_%s does not parse back on its own network" % a[2]
@@ -399,8 +411,10 @@ def _oracle(op: str, out: str):
             return "accepted address does not re-encode to itself (gives %r)" % (back,)
         if net.address.for_script(c.script()) != back:
             return "for_script(parse(address).script()) differs from the contract's own address"
-        if not _payload_len_ok(net, text, info):
-            return "accepted address carries a payload of the wrong length for %s" % info["type"]
+        if not _payload_len_ok(a[1], net, text, info):
+            return "accepted address carries a payload of the wrong length for %s (or not under the network's checksum hash)" % info["type"]
+        if info["type"] in ("p2pkh", "p2sh") and grsenv.hash_kind(a[1]) not in grsenv.kind_of_text(text):
+            return "accepted a Base58 address whose checksum is not the network's checksum hash"
     if k == "c08info" and out.startswith("ok ") and not out.startswith("ok unknown"):
         script = unhx(a[1])
         rebuilt = out.split("rebuilt=")[1]
@@ -525,7 +539,7 @@ def _gen(ctx, emit):
     emit("c08contract nulldata_push 01")
     emit("c08contract nulldata_push 81")
     emit("c08contract nulldata_push 10")
-    b58nets = [n for n in NAMES if n not in GRS]
+    b58nets = list(NAMES)
     made = []  # (net, text) of every address produced, for the cross-network stream
     # 1. all kinds x all networks x hashes; and for_script of the standard script
     for name in NAMES:
@@ -559,6 +573,46 @@ def _gen(ctx, emit):
         for b in NAMES:
             for text in rng.sample(texts, min(len(texts), ctx.n(2, 12))):
                 emit("c08parse %s %s" % (b, th(text)))
+    # 2b. the Groestlcoin family against the networks that share its version bytes (GRS P2SH 05 = BTC's; TGRS/GRSRT 6f/c4 =
+    #     XTN's, …): a text made on one side must be refused on the other because the checksums differ — both ways, texts
+    #     made by the networks themselves and by the reference encoder under either checksum hash
+    for f in FAMILY:
+        fa = NETS[f].address
+        for o in NAMES:
+            oa = NETS[o].address
+            if o in FAMILY and o <= f:
+                continue
+            shared = [(kind, pf) for kind, pf, po in (("p2pkh", fa._address_prefix, oa._address_prefix),
+                                                       ("p2sh", fa._pay_to_script_prefix, oa._pay_to_script_prefix)) if pf is not None and pf == po]
+            if not shared and o not in ("btc", "xtn", "ltc"):
+                continue
+            for kind, pf in shared or [("p2pkh", fa._address_prefix)]:
+                h = rb(20)
+                for x, y in ((f, o), (o, f)):
+                    r = _quiet(getattr(NETS[x].address, "for_" + kind), h)
+                    if r[0] == "ok" and r[1]:
+                        emit("c08parse %s %s" % (y, th(r[1])))
+                        emit("c08parse %s %s" % (x, th(r[1])))
+                        emit("c08foraddress %s %s" % (y, th(r[1])))
+                for hk in ("sha256d", "groestl"):
+                    t = grsenv.b58c_enc(hk, pf + h)
+                    emit("c08parse %s %s" % (f, th(t)))
+                    emit("c08parse %s %s" % (o, th(t)))
+    # 2c. a right payload with ONE checksum byte off (each of the four positions), under the network's own hash: refused
+    #     (a comparison of fewer than four bytes, or of the wrong slice, accepts some of these)
+    for name in FAMILY + ["btc", "dcr"] + rng.sample(NAMES, ctx.n(3, 20)):
+        aa = NETS[name].address
+        for pf in (aa._address_prefix, aa._pay_to_script_prefix):
+            if pf is None:
+                continue
+            payload = pf + rb(20)
+            chk = grsenv.HASHES[grsenv.hash_kind(name)](payload)[:4]
+            for i in range(4):
+                bad = bytearray(chk)
+                bad[i] ^= 1 << rng.randrange(8)
+                emit("c08parse %s %s" % (name, th(grsenv.b58enc(payload + bytes(bad)))))
+            emit("c08parse %s %s" % (name, th(grsenv.b58enc(payload + chk[:3]))))
+            emit("c08parse %s %s" % (name, th(grsenv.b58enc(payload + chk + chk[:1]))))
     # 3. payload lengths 0..40 for every Base58 prefix of every network (address, p2sh, wif, bip32…: any kind's
     #    prefix must not make an address out of a payload of the wrong length)
     for name in b58nets:
@@ -568,7 +622,7 @@ def _gen(ctx, emit):
         for pfx in sorted(x for x in prefixes if isinstance(x, bytes)):
             lens = list(range(0, 41)) if pfx in (p._address_prefix, p._pay_to_script_prefix) else [0, 1, 19, 20, 21, 32, 33, 34, 74]
             for ln in lens:
-                emit("c08parse %s %s" % (name, th(b2a_hashed_base58(pfx + rb(ln)))))
+                emit("c08parse %s %s" % (name, th(b58c(name, pfx + rb(ln)))))
     # bech32: every witness version / length / checksum constant on the networks with an HRP
     for name in NAMES:
         hrp = NETS[name].parse._bech32_hrp
@@ -684,8 +738,6 @@ def _gen(ctx, emit):
         emit("c08keyseq %s %s %d %d %d %s %s %s" % (name, kind, se, 1 if private else 0, 1 if flag else 0,
                                                    hx(key.sec(is_compressed=True)), hx(key.sec(is_compressed=False)), ",".join(steps)))
     for name in NAMES:
-        if name in GRS:
-            continue
         se = rng.randrange(1, 2 ** 200)
         for flag in (True, False):
             for steps in fixed_seqs[: ctx.n(3, 7)]:
@@ -694,7 +746,7 @@ def _gen(ctx, emit):
         for kind in ("bip32", "bip49", "bip84"):
             keyseq(name, kind, se, True, True, rng.choice(fixed_seqs))
     for _ in range(ctx.n(400, 8000)):
-        name = rng.choice([n for n in NAMES if n not in GRS])
+        name = rng.choice(NAMES)
         kind = rng.choice(["key", "key", "key", "bip32", "bip49", "bip84"])
         keyseq(name, kind, rng.randrange(1, 2 ** 255), rng.random() < 0.75, True if kind != "key" else rng.random() < 0.5,
                steps_random(rng.randint(1, 9)))
@@ -715,8 +767,6 @@ def oracle(op: str, out: str):
     """the property evaluated on the implementation; on the unchanged tree no step of it raises"""
     try:
         return _oracle(op, out)
-    except ImportError:
-        return None   # Groestl hash library absent
     except Exception as e:  # noqa: BLE001
         return "evaluating the property on the implementation raised %s" % type(e).__name__
 
